@@ -679,6 +679,52 @@ pub fn gen_cases(flavor: &str, rng: &mut Rng, n: usize, out: &mut dyn std::io::W
         writeln!(out, "reset").unwrap();
         let u = unit();
         let mut g = G { nb: 0, np: 0, live_b: vec![], live_p: vec![], wt: [false; NRES], wa: [0; NRES], va: [100 * u, 100 * u, 100 * u, 8 * u], ba: vec![], lines: vec![] };
+        if flavor == "c10" && rng.chance(1, 5) {
+            // overlapping-proofs stress on ONE vault: several live proofs (distinct and duplicate amounts, clones),
+            // dropped in an arbitrary order; then exactly the unlocked remainder must be withdrawable and not one unit more
+            let r = rng.below(3) as usize;
+            let k = 3 + rng.below(3) as usize;
+            let mut amts: Vec<i128> = vec![];
+            let mut live: Vec<(u32, i128)> = vec![];
+            let mut np = 0u32;
+            for _ in 0..k {
+                let a = if !amts.is_empty() && rng.chance(1, 4) { *rng.pick(&amts) } else { (1 + rng.below(9) as i128) * u };
+                amts.push(a);
+                g.lines.push(format!("vproof {} {}", r, a));
+                live.push((np, a));
+                np += 1;
+                if rng.chance(1, 4) {
+                    let (p, pa) = *rng.pick(&live);
+                    g.lines.push(format!("clone {}", p));
+                    live.push((np, pa));
+                    np += 1;
+                }
+            }
+            let drops = 1 + rng.below(live.len() as u64 - 1) as usize;
+            for _ in 0..drops {
+                let i = rng.below(live.len() as u64) as usize;
+                let (p, _) = live.remove(i);
+                g.lines.push(format!("drop {}", p));
+                if rng.chance(1, 3) {
+                    g.lines.push(format!("balance {}", r));
+                }
+            }
+            let m = live.iter().map(|x| x.1).max().unwrap_or(0);
+            let free = 100 * u - m;
+            if rng.chance(1, 2) {
+                g.lines.push(format!("withdraw {} {}", r, free));
+                g.lines.push(format!("withdraw {} {}", r, u));
+            } else {
+                g.lines.push(format!("withdraw {} {}", r, free + u));
+            }
+            g.lines.push("dropnamed".to_string());
+            g.lines.push("depositall".to_string());
+            for l in &g.lines {
+                writeln!(out, "{}", l).unwrap();
+            }
+            writeln!(out, "end").unwrap();
+            continue;
+        }
         let long = rng.chance(1, 5);
         let len = 1 + rng.below(if long { 24 } else { 10 });
         for _ in 0..len {
